@@ -1,0 +1,116 @@
+//! Verification hooks. Compiled only with `--cfg unimock_verif`.
+//!
+//! Nothing in here changes behaviour: `DynClause` lets a harness build a clause list at run time
+//! from ordinary terminal clauses, and `sync` wraps the runtime's atomic counters and lock
+//! acquisitions with a process-global yield hook that is a no-op unless a scheduler installs one.
+
+use crate::alloc::{Box, String, Vec};
+use crate::clause::term::Sink;
+use crate::Clause;
+
+type Item = Box<dyn FnOnce(&mut dyn Sink) -> Result<(), String>>;
+
+/// A clause made of a run-time list of clauses, deconstructed in push order.
+#[derive(Default)]
+pub struct DynClause {
+    items: Vec<Item>,
+}
+
+impl DynClause {
+    /// An empty clause list.
+    pub fn new() -> Self {
+        Self { items: Vec::new() }
+    }
+
+    /// Append a clause; it is deconstructed by its own `Clause` impl.
+    pub fn push(&mut self, clause: impl Clause + 'static) {
+        self.items
+            .push(Box::new(move |sink: &mut dyn Sink| clause.deconstruct(sink)));
+    }
+
+    /// Number of clauses pushed.
+    pub fn len(&self) -> usize {
+        self.items.len()
+    }
+
+    /// Whether no clause has been pushed.
+    pub fn is_empty(&self) -> bool {
+        self.items.is_empty()
+    }
+}
+
+impl Clause for DynClause {
+    fn deconstruct(self, sink: &mut dyn Sink) -> Result<(), String> {
+        for item in self.items {
+            item(sink)?;
+        }
+        Ok(())
+    }
+}
+
+/// Yield points and an instrumented atomic.
+pub mod sync {
+    use core::sync::atomic::Ordering;
+    use once_cell::sync::OnceCell;
+
+    static HOOK: OnceCell<fn(&'static str)> = OnceCell::new();
+
+    /// Install the process-global yield hook. Returns false if one was already installed.
+    pub fn install_yield_hook(hook: fn(&'static str)) -> bool {
+        HOOK.set(hook).is_ok()
+    }
+
+    /// Called before every shared-memory operation of the runtime.
+    #[inline]
+    pub fn yield_point(tag: &'static str) {
+        if let Some(hook) = HOOK.get() {
+            hook(tag)
+        }
+    }
+
+    /// `core::sync::atomic::AtomicUsize` with a yield point before every operation.
+    pub struct AtomicUsize(core::sync::atomic::AtomicUsize);
+
+    impl AtomicUsize {
+        /// See core.
+        pub const fn new(value: usize) -> Self {
+            Self(core::sync::atomic::AtomicUsize::new(value))
+        }
+
+        /// See core.
+        pub fn fetch_add(&self, value: usize, ordering: Ordering) -> usize {
+            yield_point("atomic.fetch_add");
+            self.0.fetch_add(value, ordering)
+        }
+
+        /// See core.
+        pub fn load(&self, ordering: Ordering) -> usize {
+            yield_point("atomic.load");
+            self.0.load(ordering)
+        }
+
+        /// See core.
+        pub fn store(&self, value: usize, ordering: Ordering) {
+            yield_point("atomic.store");
+            self.0.store(value, ordering)
+        }
+
+        /// See core.
+        pub fn compare_exchange(
+            &self,
+            current: usize,
+            new: usize,
+            success: Ordering,
+            failure: Ordering,
+        ) -> Result<usize, usize> {
+            yield_point("atomic.compare_exchange");
+            self.0.compare_exchange(current, new, success, failure)
+        }
+
+        /// See core.
+        pub fn swap(&self, value: usize, ordering: Ordering) -> usize {
+            yield_point("atomic.swap");
+            self.0.swap(value, ordering)
+        }
+    }
+}
